@@ -2397,8 +2397,9 @@ theorem fwdMeta_validate (src r : Trx) (fn tn : Int) (pwr : Option Int) (bits : 
     cases hf : r.fakeRssi with
     | false =>
       obtain ⟨a, ha, hv'⟩ := hva hf
-      obtain ⟨a', ha', h0, h1⟩ := hr0 hf
-      rw [ha] at ha'; injection ha' with ha'; subst ha'
+      have h01 := hr0 hf
+      rw [ha] at h01
+      dsimp only at h01
       omega
     | true =>
       have := hvb hf
@@ -2460,3 +2461,61 @@ theorem forwardMsg_exact (w : World) (j : Nat) (s : Trxd.TxMsg) (src : Trx) (fnI
   · rw [h0 hm, if_neg (fun h => hm h.1)]
 
 end OsmoVerif.World
+
+/-! ### concrete worlds for the non-vacuity examples of Props/C02, C10, C18 -/
+
+namespace OsmoVerif.World.Examples
+open OsmoVerif OsmoVerif.World
+
+/-- BTS-side transceiver, powered on, tuned -/
+def bts : Trx := { addr := 1, basePort := 5700, childIdx := 0, childMgt := true, hasClock := true,
+                   running := true, rxFreq := some 890000000, txFreq := some 935000000 }
+/-- MS-side transceiver tuned to the BTS, TRXDv1 -/
+def ms : Trx := { addr := 2, basePort := 6700, childIdx := 0, childMgt := false, hasClock := true,
+                  running := true, rxFreq := some 935000000, txFreq := some 890000000, hdrVer := 1 }
+/-- a second MS, tuned like the first but powered off -/
+def msIdle : Trx := { ms with basePort := 7700, running := false }
+/-- a third MS, powered on but listening elsewhere -/
+def msDetuned : Trx := { ms with basePort := 8700, rxFreq := some 936000000 }
+/-- a fourth MS: tuned, running, version 0, two simulated burst losses pending on even frames -/
+def msDrop : Trx := { ms with basePort := 9700, hdrVer := 0, dropAmount := 2, dropPeriod := 2 }
+/-- a fifth MS: tuned, running, version 1, muted, FAKE_RSSI / FAKE_TOA / FAKE_CI windows -/
+def msMuted : Trx := { ms with basePort := 10700, rfMuted := true }
+def msFake : Trx := { ms with basePort := 11700, fakeRssi := true, rssiBase := -80, rssiThr := 5,
+                              toaBase := 100, toaThr := 20, ciBase := 100, ciThr := 10 }
+
+def world : World := { trxs := [bts, ms, msIdle, msDetuned, msDrop, msMuted, msFake], seed := 7 }
+
+def nbBits : List Nat :=
+  Spec.nbLayout (List.replicate 57 1) 0 [0,1,0,0,0,1,1,1,1,0,1,1,0,1,0,0,0,1,0,0,0,1,1,1,1,0] 1
+    (List.replicate 57 0)
+def burst (fn : Int) : Trxd.TxMsg :=
+  { ver := 0, fn := some fn, tn := some 2, pwr := some 10, burst := some nbBits }
+
+def outOf (r : Except Exc (World × List Dgram)) : List Dgram :=
+  match r with | .ok (_, out) => out | .error _ => []
+
+def hop2 : Option (Hopping.HoppingParams (Int × Int)) :=
+  match Hopping.pyInit 5 0 [(890000000, 935000000), (891000000, 936000000)] with
+  | .ok hp => some hp
+  | .error _ => none
+def btsHop : Trx := { bts with fh := hop2 }
+def worldHop : World := { trxs := [btsHop, ms, msDetuned] }
+
+
+theorem exists_of_isOk {ε α : Type} (x : Except ε α) (h : x.isOk = true) : ∃ v, x = .ok v := by
+  cases x with
+  | ok v => exact ⟨v, rfl⟩
+  | error e => cases h
+
+/-- frame numbers of a stream of five bursts from the BTS -/
+def streamFns : List Int := [51, 52, 54, 55, 56]
+
+/-- what `trans(ver = 0)` makes of the example burst -/
+def rxOf (fn : Int) : Trxd.RxMsg :=
+  { Trxd.RxMsg.fresh with fn := some fn, tn := some 2, ver := 0, burst := some (nbBits.map Spec.softOf) }
+
+/-- the stream handed to `msDrop` (transceiver 4) -/
+def stream : List Burst := streamFns.map (fun fn => (0, burst fn, rxOf fn))
+
+end OsmoVerif.World.Examples
